@@ -19,13 +19,13 @@
 (*   Room        alloc fails only when the placement rule HasRoom has no room               *)
 EXTENDS Integers, Sequences, FiniteSets
 
-CONSTANTS Size,    \* bytes of storage
-          MinSz    \* Layout::data_channel_pdu_memory_size( 0 ): 2 (default layout), 3 (nRF encrypted "+1" layout)
-
-VARIABLES live,    \* sequence of [id, off, len]: committed PDUs, oldest first
+VARIABLES Size,    \* bytes of storage           } the configuration (template arguments): chosen when the ring is
+          MinSz,   \* Layout::data_channel_pdu_memory_size( 0 ): 2 (default layout), 3 (nRF encrypted "+1" layout) } constructed
+          live,    \* sequence of [id, off, len]: committed PDUs, oldest first
           mem      \* [0..Size-1 -> byte value]
 
-vars == <<live, mem>>
+cfg  == <<Size, MinSz>>
+vars == <<Size, MinSz, live, mem>>
 
 Cells == 0 .. Size - 1
 
@@ -71,13 +71,15 @@ Intact(m, lv) == \A i \in 1 .. Len(lv) : \A k \in 0 .. lv[i].len - 1 :
                      m[lv[i].off + k] = Content(lv[i].id, lv[i].len, k)
 
 (* ---- actions ----------------------------------------------------------------------------*)
-Init == live = <<>> /\ mem = [a \in Cells |-> 0]
+Init(S, M) == Size = S /\ MinSz = M /\ live = <<>> /\ mem = [a \in 0 .. S - 1 |-> 0]
 
-\* constructor / reset(): the ring forgets everything; it may initialise its storage
-Reset(W) ==
-    /\ InBounds(W)
+\* constructor of pdu_ring_buffer< S, Buffer, Layout with minimum M > / reset(): the ring is empty; it may
+\* initialise its storage
+Reset(S, M, W) ==
+    /\ Size' = S /\ MinSz' = M
+    /\ \A w \in W : w.a \in 0 .. S - 1
     /\ live' = <<>>
-    /\ mem' = Apply(mem, W)
+    /\ mem' = [a \in 0 .. S - 1 |-> IF \E w \in W : w.a = a THEN (CHOOSE w \in W : w.a = a).v ELSE 0]
 
 \* alloc_front( size ) -> r = "a non-empty buffer was returned", at offset off.  @pre size > MinSz
 Alloc(size, r, off, W) ==
@@ -86,7 +88,7 @@ Alloc(size, r, off, W) ==
     /\ ~r => ~HasRoom(size)                  \* Room
     /\ InBounds(W) /\ SparesLive(W, live)
     /\ mem' = Apply(mem, W)
-    /\ UNCHANGED live
+    /\ UNCHANGED <<cfg, live>>
 
 (* the user fills the region [off, off+size) handed out by alloc_front( size ) in this very  *)
 (* state with PDU `id` of `len` <= size bytes (the rest of the region is scratch and gets id  *)
@@ -102,6 +104,7 @@ Push(id, off, size, len, W) ==
        IN /\ InBounds(W) /\ SparesLive(W, nl)
           /\ live' = nl
           /\ mem'  = Apply(filled, W)
+          /\ UNCHANGED cfg
 
 \* next_end() -> r = "non-empty", the buffer [off, off+len) and the bytes read through it
 Peek(r, off, len, bytes) ==
@@ -116,6 +119,7 @@ Pop(W) ==
     /\ InBounds(W) /\ SparesLive(W, Tail(live))
     /\ live' = Tail(live)
     /\ mem'  = Apply(mem, W)
+    /\ UNCHANGED cfg
 
 \* observers
 IsEmpty      == live = <<>>
@@ -132,7 +136,8 @@ DistinctIds == \A i, j \in 1 .. Len(live) : i # j => live[i].id # live[j].id
 (* ---- closed system for exhaustive checking of the property level itself ---------------- *)
 (* The abstract ring writes nothing on its own (W = {}) and may place a PDU into *any* free   *)
 (* region; ids are the smallest unused ones.                                                  *)
-CONSTANT MaxLive
+CONSTANTS MaxLive,       \* bound on the number of live PDUs
+          Configs        \* set of <<Size, MinSz>> explored
 FreshId == CHOOSE i \in 1 .. MaxLive + 1 : i \notin Ids(live)
 Next ==
     \/ \E size \in MinSz + 1 .. Size + 1, off \in Cells, r \in BOOLEAN : Alloc(size, r, off, {})
@@ -142,9 +147,9 @@ Next ==
     \/ Pop({})
     \/ IF live = <<>> THEN Peek(FALSE, 0, 0, <<>>)
        ELSE Peek(TRUE, Oldest.off, Oldest.len, [k \in 1 .. Oldest.len |-> mem[Oldest.off + k - 1]])
-    \/ Reset({})
+    \/ Reset(Size, MinSz, {})
 
-Spec == Init /\ [][Next]_vars
+Spec == (\E c \in Configs : Init(c[1], c[2])) /\ [][Next]_vars
 
 \* an empty ring never refuses a PDU of up to Size - 1 bytes; a failing alloc leaves no room
 EmptyRoom == live = <<>> => \A size \in MinSz + 1 .. Size - 1 : HasRoom(size)
